@@ -6,12 +6,14 @@ from oracle_util import *  # noqa
 from protocol import from_real
 
 ID = "C11"
-LEAN_MODULE = None
+LEAN_MODULE = "SCoda.Props.C11"
 CLAUSES = [
-    ("every public operation with integer arguments leaves every time value in both views integer-typed", None),
-    ("bar construction and bar splitting (bars shorter than their capacity, tracks of unequal length) keep integer ticks", None),
-    ("tokenise/detokenise keep integer ticks and every token that embeds a tick renders it as an integer", None),
-    ("the set of float-introducing expression sites in the modelled files is exactly the known, analysed set", None),
+    ("every public operation with integer arguments leaves every time value in both views integer-typed "
+     "(layer 1: the Lean model is Int-typed and the correspondence prints Python times with their type — by construction, no theorem)", None),
+    ("the capacity / bar-length expressions of Bar, the bar splitter and the tokeniser are int-typed and equal the model's floor division (PyNum)", None),
+    ("every float-introducing expression site of the modelled files is inside int(...)/round(...) or is a known, argued site; "
+     "the evaluated default step sizes, note values and velocity bins are int-typed",
+     ["SCoda.C11.sites_guarded", "SCoda.C11.known_sites_exist", "SCoda.C11.defaults_int_typed"]),
 ]
 RULE = ("histories of <=6 (quick) / <=12 (thorough) public operations over integer-tick inputs, then bars (short, unequal "
         "tracks), compositions, tokenise/detokenise of the result; the canonical form prints every time with its Python type; "
